@@ -22,13 +22,14 @@ META = dict(
     level="other",
     stubs=["np.interp -> its documented contract (piecewise-linear, end values held)", "signal.lfilter(fir, 1, x, axis=-1) with concrete taps -> FIR convolution in Python",
            "numba.njit -> identity (the numba definitions of the nearest-sample search are compiled from the module's AST)",
-           "round() on a symbolic real -> an integer within 1/2 (both neighbours at a tie)"],
-    outside=["psd.area, psd.interp, get_freq_oct band-centre formulas (log/power of symbolic values)", "Lanczos accuracy for band-limited signals",
+           "round() on a symbolic real -> an integer within 1/2 (both neighbours at a tie)",
+           "psd.area: positive inputs are given by their logarithms (np.log returns it; products/quotients add/subtract logarithms); exp -> uninterpreted positive function"],
+    outside=["psd.interp, get_freq_oct band-centre formulas (log/power of symbolic values)", "numerical accuracy of psd.area's logarithmic closed form within 1e-4 of slope -1 (a conditioning allowance: relative error <= |s+1| ln(f2/f1)/2)", "Lanczos accuracy for band-limited signals",
              "the rest of fixtime (sample-rate statistics, drop-out / spike removal, turning-point alignment)"],
     assumptions=["band layouts and (p, q, pts, n) are concrete (enumerated); PSD values, data samples and time stamps are symbolic",
                  "nearest/previous-sample search: old times strictly increasing; the new uniform grid starts within one step of the first old time and ends within 1.5 steps of the last (what fixtime passes)"],
     reach_required=["rescale-linear", "rescale-log", "rescale-octave", "rescale-partial-overlap", "resample-up", "resample-down", "resample-axis",
-                    "closest-tie", "closest-gap", "previous", "base-shift"],
+                    "closest-tie", "closest-gap", "previous", "base-shift", "area", "area-additive"],
     trusted_base=["z3 5.1", "CPython 3.12", "NumPy array semantics on dtype=object"],
 )
 
@@ -531,10 +532,168 @@ def replay_base(p):
 REPLAY = {"rescale": replay_rescale, "resample": replay_resample, "closest": replay_closest, "base": replay_base}
 
 
+# ---------------------------------------------------------------------------
+# psd.area: frequencies and PSD values are positive numbers known through their logarithms; exp is an
+# uninterpreted positive function (z3 EUF), log(exp(x)) = x by construction
+
+EXPF = z3.Function("exp", z3.RealSort(), z3.RealSort())
+
+
+class LogPos:
+    """a positive real given by its natural logarithm `l` (z3 Real term)"""
+    __slots__ = ("l",)
+
+    def __init__(self, l):
+        self.l = l
+
+    def val(self):
+        t = EXPF(z3.simplify(self.l))
+        S.eng().assume(t > 0)
+        return S.SymR(t)
+
+    def __truediv__(s, o):
+        if isinstance(o, LogPos):
+            return LogPos(s.l - o.l)
+        return s.val() / o
+
+    def __mul__(s, o):
+        if isinstance(o, LogPos):
+            return LogPos(s.l + o.l)
+        return s.val() * o
+
+    __rmul__ = __mul__
+
+    def __sub__(s, o):
+        return s.val() - (o.val() if isinstance(o, LogPos) else o)
+
+    def __rsub__(s, o):
+        return o - s.val()
+
+    def __add__(s, o):
+        return s.val() + (o.val() if isinstance(o, LogPos) else o)
+
+    __radd__ = __add__
+
+
+class NPL(NPProxy):
+    def log(self, x):
+        if isinstance(x, LogPos):
+            return S.SymR(x.l)
+        return np.log(x)
+
+    def isnan(self, a):
+        if isinstance(a, np.ndarray) and a.dtype == object:
+            return np.zeros(a.shape, bool)
+        return np.isnan(a)
+
+    def atleast_1d(self, *a):
+        return [np.asarray(x) for x in a] if len(a) > 1 else np.asarray(a[0])
+
+
+AREA_NEAR = "1e-4"       # the logarithmic closed form may stand in for the power law only this close to slope -1
+
+
+def area_fn(npts, ncol, additive):
+    def fn(eng):
+        S.set_engine(eng)
+        import pyyeti.psd as psd
+        f = rebind([psd.proc_psd_spec, psd.area], dict(np=NPL()))
+        lf = [z3.Real("lf%d" % i) for i in range(npts)]
+        lp = [[z3.Real("lp%d_%d" % (i, j)) for j in range(ncol)] for i in range(npts)]
+        for i in range(npts):
+            eng.assume(z3.And(lf[i] >= 0, lf[i] <= 10))
+            if i:
+                eng.assume(lf[i] - lf[i - 1] >= z3.RealVal("0.1"))
+            for j in range(ncol):
+                eng.assume(z3.And(lp[i][j] >= -10, lp[i][j] <= 10))
+        if additive:
+            # the middle point lies on the log-log line through its neighbours
+            for j in range(ncol):
+                eng.assume((lp[1][j] - lp[0][j]) * (lf[2] - lf[0]) == (lp[2][j] - lp[0][j]) * (lf[1] - lf[0]))
+        info = dict(npts=npts, ncol=ncol, additive=additive)
+        F = np.array([LogPos(x) for x in lf], dtype=object)
+        P = np.empty((npts, ncol), dtype=object)
+        for i in range(npts):
+            for j in range(ncol):
+                P[i, j] = LogPos(lp[i][j])
+        try:
+            got = f["area"]((F, P if ncol > 1 else P[:, 0]))
+            if additive:
+                got2 = f["area"]((F[[0, 2]], P[[0, 2]] if ncol > 1 else P[[0, 2], 0]))
+        except E.Inconclusive:
+            raise
+        except Exception as ex:
+            import traceback
+            return [E.Obl("psd.area raises %r (%s)" % (ex, traceback.format_exc()[-300:]), False, info=info)]
+        near = z3.RealVal(AREA_NEAR)
+        ex = lambda t: EXPF(z3.simplify(t))
+        obls = [E.Obl("psd.area returns one value per PSD column", np.shape(got) == (ncol,), info=info)]
+        if np.shape(got) != (ncol,):
+            return obls
+        import itertools
+        for j in range(ncol):
+            segs = []
+            for i in range(npts - 1):
+                s_ = (lp[i + 1][j] - lp[i][j]) / (lf[i + 1] - lf[i])
+                close = z3.And(s_ + 1 < near, -(s_ + 1) < near)
+                # antiderivative of p1 (f/f1)^s between f1 and f2; at s = -1: p1 f1 ln(f2/f1)
+                power = (ex(lp[i][j] - s_ * lf[i] + (s_ + 1) * lf[i + 1]) - ex(lp[i][j] + lf[i])) / (s_ + 1)
+                logf = ex(lp[i][j] + lf[i]) * (lf[i + 1] - lf[i])
+                segs.append(((s_ != -1, power), (close, logf)))
+            # per segment the power-law integral, or - only within AREA_NEAR of slope -1 - the logarithmic closed form
+            alts = []
+            for pick in itertools.product((0, 1), repeat=npts - 1):
+                alts.append(z3.And([segs[i][b][0] for i, b in enumerate(pick)] + [S.lift(got[j]) == z3.Sum([segs[i][b][1] for i, b in enumerate(pick)])]))
+            obls.append(E.Obl("psd.area column %d: the sum over segments of the integral of the log-log interpolation "
+                              "(logarithmic closed form only within %s of slope -1)" % (j, AREA_NEAR), z3.Or(alts), info=info))
+            if additive:
+                s_ = (lp[2][j] - lp[0][j]) / (lf[2] - lf[0])
+                obls.append(E.Obl("psd.area column %d is additive: inserting a break point on the log-log line leaves the area unchanged "
+                                  "(slopes at least %s away from -1, or exactly -1)" % (j, AREA_NEAR),
+                                  z3.Implies(z3.Or(s_ == -1, s_ + 1 >= near, -(s_ + 1) >= near), S.lift(got[j]) == S.lift(got2[j])), info=info))
+        eng.tag("area-additive" if additive else "area")
+        return obls
+    return fn
+
+
+def replay_area(p):
+    import mpmath as mp
+    import pyyeti.psd as psd
+    mp.mp.dps = 40
+    mdl = p["model"]
+    npts, ncol = p["npts"], p["ncol"]
+    g = lambda k, d: Fraction(mdl.get(k, d) if mdl.get(k) is not None else d)
+    lf = [g("lf%d" % i, i) for i in range(npts)]
+    lp = [[g("lp%d_%d" % (i, j), 0) for j in range(ncol)] for i in range(npts)]
+    F = np.array([float(mp.exp(mp.mpf(x.numerator) / x.denominator)) for x in lf])
+    P = np.array([[float(mp.exp(mp.mpf(x.numerator) / x.denominator)) for x in row] for row in lp])
+    if np.any(np.diff(F) <= 0):
+        return False, "model frequencies not increasing"
+    got = psd.area((F, P))
+    msgs = []
+    for j in range(ncol):
+        tot = mp.mpf(0)
+        L = 0.0
+        for i in range(npts - 1):
+            f1, f2, p1, p2 = [mp.mpf(float(x)) for x in (F[i], F[i + 1], P[i, j], P[i + 1, j])]
+            s_ = mp.log(p2 / p1) / mp.log(f2 / f1)
+            tot += p1 * f1 * mp.log(f2 / f1) if s_ == -1 else p1 * f1 / (s_ + 1) * ((f2 / f1) ** (s_ + 1) - 1)
+            L = max(L, float(mp.log(f2 / f1)))
+        rel = abs(got[j] - tot) / abs(tot)
+        if rel > 1e-5 * max(L, 0.1) + 1e-12:
+            msgs.append("psd.area of freq=%s psd=%s is %r, the integral of the log-log interpolation is %s (relative difference %.2e)" % (F.tolist(), P[:, j].tolist(), got[j], mp.nstr(tot, 17), float(rel)))
+    if msgs:
+        return True, "; ".join(msgs[:2])
+    return False, "psd.area fine on the real code"
+
+
+REPLAY["area"] = replay_area
+
+
 def job(kind, *args, split_depth=None, roots=None):
     eng = E.Engine()
-    fn = dict(rescale=rescale_fn, resample=resample_fn, closest=closest_fn, base=base_fn)[kind](*args)
-    if kind in ("rescale", "resample"):
+    fn = dict(rescale=rescale_fn, resample=resample_fn, closest=closest_fn, base=base_fn, area=area_fn)[kind](*args)
+    if kind in ("rescale", "resample", "area"):
         eng.obl_mode = "each"
     res = eng.explore(fn, max_cex=3, roots=roots, split_depth=split_depth)
     res["note"] = "%s %s" % (kind, str(args)[:100])
@@ -573,12 +732,14 @@ def jobs(tier, seed):
             out.append(H.Job("closest-6x3-%s" % prev, job, "closest", 6, 3, prev, split_depth=9, weight=2000))
     for sr in (1.0, 8.0, 1000.0):
         out.append(H.Job("base-%g" % sr, job, "base", sr, weight=5))
+    for a in [(2, 1, False), (3, 1, False), (2, 2, False), (3, 1, True)] + ([] if q else [(4, 1, False), (3, 2, True)]):
+        out.append(H.Job("area-%d-%d-%s" % a, job, "area", *a, weight=10))
     return out
 
 
 def extra_coverage(results):
     import pyyeti.psd as psd
     import pyyeti.dsp as dsp
-    return dict(functions_encoded=[H.fn_id(psd.rescale), H.fn_id(psd.get_freq_oct), H.fn_id(dsp.resample),
+    return dict(functions_encoded=[H.fn_id(psd.rescale), H.fn_id(psd.get_freq_oct), H.fn_id(psd.area), H.fn_id(psd.proc_psd_spec), H.fn_id(dsp.resample),
                                    "pyyeti.dsp._find_closest_times/_find_closest_previous_times [both definitions, from the module AST]",
                                    "pyyeti.dsp.fixtime[base-alignment statement]@" + _base_section()[2]])
